@@ -397,7 +397,8 @@ pub fn run_property(ctx: &Ctx, prop: &dyn Property) -> Summary {
     let wall = t0.elapsed().as_secs_f64();
     let child_runs = ctx.child_runs.load(Ordering::Relaxed);
     let mut harness_errors: Vec<String> = vec![];
-    if total_skipped * 2 > n {
+    let enum_skips = skipped.get("enum-slot-beyond-run").copied().unwrap_or(0);
+    if (total_skipped - enum_skips) * 2 > n {
         harness_errors.push(format!("more than half of the cases were skipped ({total_skipped}/{n})"));
     }
     let unparsed = probes.get("unparsed").copied().unwrap_or(0);
